@@ -71,6 +71,31 @@ pub fn shared_feature_schemas() -> Vec<String> {
     "r = [int] .eq [1]",
     "r = {a: int} .eq {a: 1}",
     "r = [* int] .ne [1, 2]",
+    // RFC 9165 / 9741 / freezer controls on text (both validators implement them)
+    "r = tstr .feature \"f\"",
+    "r = {a: int / (tstr .feature \"f\")}",
+    "r = [* (int .feature \"f\")]",
+    "r = \"a\\n  b\" .det \"c\"",
+    "r = tstr .abnf \"a = %x61\"",
+    "r = tstr .abnf \"a = 1*%x61-62\"",
+    "r = tstr .b64u 'ab'",
+    "r = tstr .b64c 'ab'",
+    "r = tstr .b64u-sloppy 'ab'",
+    "r = tstr .hex 'ab'",
+    "r = tstr .hexlc 'ab'",
+    "r = tstr .hexuc 'ab'",
+    "r = tstr .b32 'ab'",
+    "r = tstr .h32 'ab'",
+    "r = tstr .b45 'ab'",
+    "r = tstr .base10 int",
+    "r = tstr .base10 (1..20)",
+    "r = tstr .printf ([\"%d\", 12])",
+    "r = tstr .json int",
+    "r = tstr .json {a: int}",
+    "r = tstr .join ([\"a\", \"b\"])",
+    "r = tstr .pcre \"a+\"",
+    "r = tstr .iregexp \"a+\"",
+    "r = [* tstr .pcre \"[ab]\"]",
     // recursion / aliases
     "r = int / [* r]",
     "r = {? a: r}",
@@ -100,6 +125,19 @@ pub fn shared_feature_schemas() -> Vec<String> {
 pub fn extra_docs() -> Vec<RV> {
   vec![
     t("2020-01-01T00:00:00Z"),
+    t("ab"),
+    t("aa"),
+    t("YWI"),
+    t("YWI="),
+    t("6162"),
+    t("6162 "),
+    t("MFRA===="),
+    t("C5H0===="),
+    t("FGW"),
+    t("12"),
+    t("1"),
+    t("{\"a\":1}"),
+    t("a\nbc"),
     t("http://x.y/z"),
     t("bc"),
     t("abc"),
